@@ -154,6 +154,20 @@ define void @g() {
 2:
   ret void
 }
+;;; ATOM const/blockaddress-function-in-address-space
+@x = global i8 addrspace(1)* blockaddress(@f, %b)
+@y = global [2 x i8 addrspace(1)*] [i8 addrspace(1)* blockaddress(@f, %b), i8 addrspace(1)* blockaddress(@f, %c)]
+define void @f() addrspace(1) {
+entry:
+  indirectbr i8 addrspace(1)* blockaddress(@f, %b), [label %b, label %c]
+b:
+  br label %c
+c:
+  ret void
+}
+define i8 addrspace(1)* @user() {
+  ret i8 addrspace(1)* blockaddress(@f, %c)
+}
 ;;; ATOM const/dso_local_equivalent
 declare void @ext()
 @x = global i8* null
